@@ -25,4 +25,5 @@ CHECKS = {
     "C16": pw.check_C16,
     "C17": pw.check_C17,
     "C18": pio.check_C18,
+    "C19": pp.check_C19,
 }
